@@ -968,36 +968,78 @@ theorem applyT_tail (g : Graph) (rej : Ref → Bool) (rejTag : Bool) (refs : Ref
       · refine ⟨fun x hx => RefMap.get_del_ne _ hx, htag, Or.inr ⟨RefMap.get_del_eq _ _, ?_⟩⟩
         rw [tags_get_cons]; simp
 
-/-- **The delete-branch job, at every crash point, whatever is refused**: nothing but `q/<v>` and the branch
-    itself is touched, no tag is lost, and the branch is gone only if its archive tag is on its tip. -/
+/-- the tail `delete` of a RESUMED deletion (the archive tag is already on the tip): no tag is written -/
+theorem applyT_tail_resumed (g : Graph) (rej : Ref → Bool) (rejTag : Bool) (refs : RefMap) (tags : Tags) (d : Dest)
+    (c : Commit) (hc : refs.get (.dest d) = some c) (ht : Tags.get tags d = some c) (k : Nat) :
+    let st := applyT g rej rejTag (refs, tags) ([OpT.br (.delete (.dest d))].take k)
+    (∀ x, x ≠ .dest d → st.1.get x = refs.get x) ∧ st.2 = tags ∧
+    (st.1.get (.dest d) = some c ∨ (st.1.get (.dest d) = none ∧ Tags.get st.2 d = some c)) := by
+  match k with
+  | 0 => exact ⟨fun _ _ => rfl, rfl, Or.inl hc⟩
+  | k + 1 =>
+    simp only [List.take_succ_cons, List.take_nil, applyT, applyOp]
+    split
+    · exact ⟨fun _ _ => rfl, trivial, Or.inl hc⟩
+    · exact ⟨fun x hx => RefMap.get_del_ne _ hx, trivial, Or.inr ⟨RefMap.get_del_eq _ _, ht⟩⟩
+
+/-- the deletion of `q/<v>` touches nothing else -/
+theorem applyOp_delete_q (g : Graph) (rej : Ref → Bool) (refs : RefMap) (d : Dest) (x : Ref) (hx : x ≠ .q d) :
+    (applyOp g rej refs (.delete (.q d))).get x = refs.get x := by
+  simp only [applyOp]
+  split
+  · rfl
+  · exact RefMap.get_del_ne _ hx
+
+/-- **The delete-branch job, at every crash point, whatever is refused** (`tags`: the archive tags when the job
+    starts, the ones its plan was computed from): nothing but `q/<v>` and the branch itself is touched, no tag is
+    lost, and the branch is gone only if its archive tag is on its tip — pushed by this job, or found there
+    (resumed deletion); a tag found anywhere else: nothing happens. -/
 theorem applyT_deleteBranch (s : Sys) (d : Dest) (c : Commit) (hc : s.remote.get (.dest d) = some c)
     (g : Graph) (rej : Ref → Bool) (rejTag : Bool) (tags : Tags) (k : Nat) :
-    let st := applyT g rej rejTag (s.remote, tags) ((planDeleteBranchT s d).take k)
+    let st := applyT g rej rejTag (s.remote, tags) ((planDeleteBranchT s tags d).take k)
     (∀ x, x ≠ .q d → x ≠ .dest d → st.1.get x = s.remote.get x) ∧
     (∀ d' t, Tags.get tags d' = some t → Tags.get st.2 d' = some t) ∧
     (st.1.get (.dest d) = some c ∨ (st.1.get (.dest d) = none ∧ Tags.get st.2 d = some c)) := by
   unfold planDeleteBranchT
   rw [hc]
   simp only
-  split
-  · -- the queue branch is deleted first
-    match k with
-    | 0 => exact ⟨fun _ _ _ => rfl, fun _ _ h => h, Or.inl hc⟩
-    | k + 1 =>
-      simp only [List.cons_append, List.nil_append, List.take_succ_cons, applyT]
-      have hq : ∀ x, x ≠ .q d → (applyOp g rej s.remote (.delete (.q d))).get x = s.remote.get x := by
-        intro x hx
-        simp only [applyOp]
-        split
-        · rfl
-        · exact RefMap.get_del_ne _ hx
-      have hc' : (applyOp g rej s.remote (.delete (.q d))).get (.dest d) = some c := by
-        rw [hq (.dest d) (fun he => nomatch he)]; exact hc
-      obtain ⟨h1, h2, h3⟩ := applyT_tail g rej rejTag _ tags d c hc' k
-      exact ⟨fun x hx1 hx2 => by rw [h1 x hx2, hq x hx1], h2, h3⟩
-  · simp only [List.nil_append]
-    obtain ⟨h1, h2, h3⟩ := applyT_tail g rej rejTag s.remote tags d c hc k
-    exact ⟨fun x _ hx2 => h1 x hx2, h2, h3⟩
+  cases ht : Tags.get tags d with
+  | none =>
+    simp only
+    split
+    · -- the queue branch is deleted first
+      match k with
+      | 0 => exact ⟨fun _ _ _ => rfl, fun _ _ h => h, Or.inl hc⟩
+      | k + 1 =>
+        simp only [List.cons_append, List.nil_append, List.take_succ_cons, applyT]
+        have hq := applyOp_delete_q g rej s.remote d
+        have hc' : (applyOp g rej s.remote (.delete (.q d))).get (.dest d) = some c := by
+          rw [hq (.dest d) (fun he => nomatch he)]; exact hc
+        obtain ⟨h1, h2, h3⟩ := applyT_tail g rej rejTag _ tags d c hc' k
+        exact ⟨fun x hx1 hx2 => by rw [h1 x hx2, hq x hx1], h2, h3⟩
+    · simp only [List.nil_append]
+      obtain ⟨h1, h2, h3⟩ := applyT_tail g rej rejTag s.remote tags d c hc k
+      exact ⟨fun x _ hx2 => h1 x hx2, h2, h3⟩
+  | some t =>
+    simp only
+    by_cases htc : t = c
+    · subst htc
+      simp only [if_true]
+      split
+      · match k with
+        | 0 => exact ⟨fun _ _ _ => rfl, fun _ _ h => h, Or.inl hc⟩
+        | k + 1 =>
+          simp only [List.cons_append, List.nil_append, List.take_succ_cons, applyT]
+          have hq := applyOp_delete_q g rej s.remote d
+          have hc' : (applyOp g rej s.remote (.delete (.q d))).get (.dest d) = some t := by
+            rw [hq (.dest d) (fun he => nomatch he)]; exact hc
+          obtain ⟨h1, h2, h3⟩ := applyT_tail_resumed g rej rejTag _ tags d t hc' ht k
+          exact ⟨fun x hx1 hx2 => by rw [h1 x hx2, hq x hx1], fun d' t' h => by rw [h2]; exact h, h3⟩
+      · simp only [List.nil_append]
+        obtain ⟨h1, h2, h3⟩ := applyT_tail_resumed g rej rejTag s.remote tags d t hc ht k
+        exact ⟨fun x _ hx2 => h1 x hx2, fun d' t' h => by rw [h2]; exact h, h3⟩
+    · simp only [htc, if_false, List.take_nil, applyT]
+      exact ⟨fun _ _ _ => trivial, fun _ _ h => h, Or.inl hc⟩
 
 
 /-! ### 6. A decidable check of well-formedness (for the non-vacuity examples) -/
